@@ -252,8 +252,14 @@ def deprecated_message_api(chk, prefix):
     if "%s(%s).write()" % (log.params[0], log.node.args.kwarg.arg) not in t:
         problems.append("Message.log does not write Message(fields)")
     mc = ctx.func("_validation", "MessageType.__call__")
-    t = " ".join(unparse(s) for s in mc.node.body)
-    if "fields[MESSAGE_TYPE_FIELD] = self.message_type" not in t or "return Message(fields, self._serializer)" not in t:
+    MTF = ctx.p.fold_global(ctx.p.mod("_message"), "MESSAGE_TYPE_FIELD")
+    kwname = mc.node.args.kwarg.arg if mc.node.args.kwarg else None
+    sets_type = any(isinstance(n, ast.Assign) and isinstance(n.targets[0], ast.Subscript) and isinstance(n.targets[0].value, ast.Name) and n.targets[0].value.id == kwname
+                    and ctx.try_fold(mc, n.targets[0].slice) == (True, MTF) and common.is_self_attr(n.value, "message_type") for n in iter_own_nodes(mc.node))
+    rets_ = [X.inline(mc, n.value) for n in iter_own_nodes(mc.node) if isinstance(n, ast.Return) and n.value is not None]
+    builds = len(rets_) == 1 and isinstance(rets_[0], ast.Call) and len(rets_[0].args) == 2 and isinstance(rets_[0].args[0], ast.Name) and rets_[0].args[0].id == kwname \
+        and common.is_self_attr(rets_[0].args[1], "_serializer")
+    if not sets_type or not builds:
         problems.append("MessageType.__call__ does not build Message(fields + message_type, self._serializer)")
     ml = ctx.func("_validation", "MessageType.log")
     t = " ".join(unparse(s) for s in ml.node.body)
